@@ -748,6 +748,7 @@ fn grow_one<Ty: petgraph::EdgeType>(old: usize, req: usize, exact: bool) -> Resu
 
 pub fn mx_grow(calls: &[Value], log: &mut Log) {
     for (i, rec) in calls.iter().enumerate() {
+        log.about_to(&json!({"i": i}));
         let c = &rec["call"];
         let (old, req) = (c["old"].as_u64().unwrap() as usize, c["req"].as_u64().unwrap() as usize);
         let (exact, dir) = (c["exact"].as_bool().unwrap(), c["directed"].as_bool().unwrap());
@@ -818,6 +819,7 @@ fn csr_one<Ty: petgraph::EdgeType>(sc: &Value) -> Result<Vec<String>, ()> {
 
 pub fn csr_replay(scripts: &[Value], log: &mut Log) {
     for (i, sc) in scripts.iter().enumerate() {
+        log.about_to(&json!({"i": i}));
         let r = if sc["directed"].as_bool().unwrap() { csr_one::<petgraph::Directed>(sc) } else { csr_one::<petgraph::Undirected>(sc) };
         match r {
             Ok(d) => log.ev(json!({"i": i, "ok": d.is_empty(), "diffs": d.into_iter().take(4).collect::<Vec<_>>()})),
@@ -869,6 +871,7 @@ fn gm_one<Ty: petgraph::EdgeType>(sc: &Value) -> Result<(Vec<String>, bool), ()>
 
 pub fn gm_replay(scripts: &[Value], log: &mut Log) {
     for (i, sc) in scripts.iter().enumerate() {
+        log.about_to(&json!({"i": i}));
         let r = if sc["directed"].as_bool().unwrap() { gm_one::<petgraph::Directed>(sc) } else { gm_one::<petgraph::Undirected>(sc) };
         match r {
             Ok((d, so)) => log.ev(json!({"i": i, "ok": d.is_empty(), "same_order": so, "diffs": d.into_iter().take(4).collect::<Vec<_>>()})),
@@ -927,6 +930,7 @@ fn mxi_one<Ty: petgraph::EdgeType>(sc: &Value) -> Result<(Vec<String>, bool), ()
 
 pub fn mxi_replay(scripts: &[Value], log: &mut Log) {
     for (i, sc) in scripts.iter().enumerate() {
+        log.about_to(&json!({"i": i}));
         let r = if sc["directed"].as_bool().unwrap() { mxi_one::<petgraph::Directed>(sc) } else { mxi_one::<petgraph::Undirected>(sc) };
         match r {
             Ok((d, followed)) => log.ev(json!({"i": i, "ok": d.is_empty(), "followed": followed, "diffs": d.into_iter().take(4).collect::<Vec<_>>()})),
